@@ -222,17 +222,13 @@ theorem take_drop_cons {α : Type} : ∀ (n : Nat) (l : List α) (x : α) (xs : 
 /-- the messages of a chunked reply in the order in which they are delivered -/
 def deliveryOrder (e : Env) (lines : List Str) : List Out := (buildMsgs e lines.reverse []).reverse
 
-theorem reply_chunked (e : Env) (cfg : Cfg) (chunks : List Str) (s : Str) (allowed : Nat) (s1 : Str)
-    (hprep : prepare e cfg s = some (allowed, s1, false))
-    (hres : suffixReserve e.texts (blen s1) ≤ allowed)
-    (lines : List Str) (hwrap : ircWrap chunks s1 (allowed - suffixReserve e.texts (blen s1)) = .ok lines) :
-    reply e cfg chunks s = .sent ((deliveryOrder e lines).take (max cfg.instant 1))
+theorem deliver_eq (e : Env) (cfg : Cfg) (lines : List Str) :
+    deliver e cfg lines = .sent ((deliveryOrder e lines).take (max cfg.instant 1))
       (if (deliveryOrder e lines).length < max cfg.instant 1 then none
        else some ((deliveryOrder e lines).drop (max cfg.instant 1)).reverse) := by
-  unfold reply
-  rw [hprep]
-  simp only [Bool.false_eq_true, ↓reduceIte, show ¬ (allowed < suffixReserve e.texts (blen s1)) by omega, hwrap]
+  unfold deliver
   have hm : buildMsgs e lines.reverse [] = (deliveryOrder e lines).reverse := by simp [deliveryOrder]
+  simp only
   rw [hm, instantLoop_reverse]
   simp only [List.nil_append]
   rw [popLast_reverse]
@@ -250,6 +246,18 @@ theorem reply_chunked (e : Env) (cfg : Cfg) (chunks : List Str) (s : Str) (allow
     simp only
     rw [hmax, h1, h2]
     simp only [show ¬ ((deliveryOrder e lines).length < cfg.instant - 1 + 1) by omega, ↓reduceIte]
+
+theorem reply_chunked (e : Env) (cfg : Cfg) (chunks : List Str) (s : Str) (allowed : Nat) (s1 : Str)
+    (hprep : prepare e cfg s = some (allowed, s1, false))
+    (hres : suffixReserve e.texts (blen s1) ≤ allowed)
+    (lines : List Str) (hwrap : ircWrap chunks s1 (allowed - suffixReserve e.texts (blen s1)) = .ok lines) :
+    reply e cfg chunks s = .sent ((deliveryOrder e (lines.take cfg.maximumMores)).take (max cfg.instant 1))
+      (if (deliveryOrder e (lines.take cfg.maximumMores)).length < max cfg.instant 1 then none
+       else some ((deliveryOrder e (lines.take cfg.maximumMores)).drop (max cfg.instant 1)).reverse) := by
+  unfold reply
+  rw [hprep]
+  simp only [Bool.false_eq_true, ↓reduceIte, show ¬ (allowed < suffixReserve e.texts (blen s1)) by omega, hwrap]
+  exact deliver_eq e cfg _
 
 theorem mem_deliveryOrder (e : Env) (lines : List Str) (o : Out) (h : o ∈ deliveryOrder e lines) :
     ∃ j l, j < lines.length ∧ l ∈ lines ∧ o = makeReply e (withSuffix e.texts j l) := by
